@@ -193,6 +193,27 @@ struct Mixed {
             MX("Hsync", Hsync(fid) == FAIL);
             return true;
         }
+        if (k == "hupgrade") {
+            // a reader has the file open; the session's own (writing) open of the same path then swaps the stream of the
+            // shared file record; the reader goes on reading and closes
+            if (!on_disk || fid != FAIL || sdid != FAIL || acc_mode == DFACC_READ)
+                return false;
+            if (no_reopen_after_failure && call_failed)
+                return false;
+            int32 ro = Hopen(path.c_str(), DFACC_READ, 0);
+            if (MX("Hopen", ro == FAIL))
+                return true;
+            bool ok = need_h();
+            uint8 ver[256];
+            if (ok && !call_failed) {
+                int32 got = Hgetelement(ro, DFTAG_VERSION, 1, ver);
+                ctx.tr((uint64_t)(int64_t)got);
+                MX("Hgetelement", got == FAIL);
+            }
+            MX("Hclose", Hclose(ro) == FAIL);
+            ctx.probe("reader-open-while-upgraded");
+            return true;
+        }
         if (k == "hext") { // element stored in an external file
             if (!need_h())
                 return true;
